@@ -20,6 +20,18 @@ CLAIMED = {
              'orientation changes; assembled-system equality is numeric (1e-10). The pre-fix join loop is kept as negative control.',
         technique='TLA+ state machine (Multipatch.tla) + TLC exhaustive exploration + replay of every terminal behaviour into the real code',
         design_ref='3 C14'),
+    'C20': dict(
+        text='spec/CompileCache.tla models the cache protocol with one action per linearisation point, <= 3 processes, 2 sources, '
+             'Crash enabled in every program counter; TLC checks NoPartialVisible, NoInterpreterDeath, NoFailedRequest, '
+             'LoadedRight, NoOverwrite and Recovery (liveness under weak fairness), and the pre-fix in-place protocol violates '
+             'them (negative control). Bound to the code in both directions: every spec crash point is produced for real '
+             '(SIGKILL at the hook of that point, SIGKILL of the process group when inotify reports an in-place write, prefixes/'
+             'garbage of files observed to be written in place, random-time kills) followed by a request in a fresh '
+             'interpreter; per-process hook traces of real races (2..16 processes) are validated by spec/CompileTrace.tla.',
+        note='SIGKILL stands for power loss (no fsync modelling); dlopen of a truncated ELF is observed, not modelled; real '
+             'schedules of the races are whatever the OS produces (validated, not enumerated); one 1-D form family.',
+        technique='TLA+ protocol model + TLC (safety, liveness, negative control) + real crash injection at every modelled crash point + TLC trace validation of hook events from real concurrent compilations',
+        design_ref='3 C20'),
 }
 
 NOT_BUILT = 'specification module not built yet (see DESIGN.md section 6); not claimed with a weaker technique'
